@@ -120,6 +120,22 @@ def _watchdog(signum, frame):
     os._exit(97)
 
 
+_KNOWN = {}
+
+
+def _triage(part, v, res):
+    """worker side: violations matching a known finding are only counted (one example kept); the rest are shipped"""
+    v['part'] = part.name
+    res['violation_count'] = res.get('violation_count', 0) + 1
+    e = match_known(v, _KNOWN.get('list', []))
+    if e is not None:
+        k = res.setdefault('known', {}).setdefault(e['id'], {'count': 0, 'example': v})
+        k['count'] += 1
+        return
+    if len(res['violations']) < 100:
+        res['violations'].append(v)
+
+
 def _explore_task(part_name, items, max_paths, deadline, task_timeout):
     """runs in a worker process"""
     part = _PARTS[part_name]
@@ -137,12 +153,8 @@ def _explore_task(part_name, items, max_paths, deadline, task_timeout):
         def on_path(g):
             if not g.feasible:
                 return
-            if g.violations:
-                for v in g.violations:
-                    if len(res['violations']) < 200:
-                        res['violations'].append(v)
-                    res.setdefault('violation_count', 0)
-                    res['violation_count'] += 1
+            for v in g.violations:
+                _triage(part, v, res)
             if getattr(g, 'nontrivial', True) and not g.ended:
                 res['nontrivial'] += 1
             if g.ended:
@@ -165,6 +177,13 @@ def _explore_task(part_name, items, max_paths, deadline, task_timeout):
 
 def _worker_main(task_q, result_q):
     _limit_resources()
+    try:
+        # circuits' fall-back exception handler writes tracebacks to fd 2; keep the check's output readable
+        os.makedirs(os.path.join(VERIF, 'out'), exist_ok=True)
+        fd = os.open(os.path.join(VERIF, 'out', 'worker-stderr.log'), os.O_WRONLY | os.O_CREAT | os.O_TRUNC, 0o644)
+        os.dup2(fd, 2)
+    except Exception:
+        pass
     while True:
         task = task_q.get()
         if task is None:
@@ -180,10 +199,11 @@ def _worker_main(task_q, result_q):
 def explore_parallel(part, budget_s, nproc=NPROC, chunk=400, seed=0, stop_on_violation=False):
     """explore a pathex part to closure (or until budget); returns merged result dict"""
     _PARTS[part.name] = part
+    _KNOWN['list'] = load_known(_KNOWN.get('pid')) if _KNOWN.get('pid') else []
     t0 = time.time()
     deadline = t0 + budget_s
     merged = {'stats': None, 'violations': [], 'violation_count': 0, 'samples': [], 'nontrivial': 0, 'ended': 0,
-              'errors': [], 'cov': {}, 'vars': {}, 'closed': False, 'unexplored_items': 0}
+              'errors': [], 'cov': {}, 'vars': {}, 'closed': False, 'unexplored_items': 0, 'known': {}}
     from pathex import Stats
     stats = Stats()
 
@@ -191,6 +211,9 @@ def explore_parallel(part, budget_s, nproc=NPROC, chunk=400, seed=0, stop_on_vio
         stats.add(res['stats'])
         merged['violations'].extend(res['violations'][: max(0, 400 - len(merged['violations']))])
         merged['violation_count'] += res.get('violation_count', 0)
+        for kid, k in res.get('known', {}).items():
+            mk = merged['known'].setdefault(kid, {'count': 0, 'example': k['example']})
+            mk['count'] += k['count']
         if len(merged['samples']) < 6:
             merged['samples'].extend(res['samples'])
         merged['nontrivial'] += res['nontrivial']
@@ -287,8 +310,7 @@ def _explore_task_bfs(part_name, items, want, deadline, task_timeout):
             if not g.feasible:
                 return
             for v in g.violations:
-                res['violations'].append(v)
-                res['violation_count'] += 1
+                _triage(part, v, res)
             if g.ended:
                 res['ended'] += 1
             elif getattr(g, 'nontrivial', True):
@@ -390,7 +412,7 @@ def run_canaries(mod, tier='quick', budget=60):
                 rep = xh.run_part(mod.PROPERTY, part, tier, budget, stop_on_violation=True)
                 viol = rep.get('_violations', [])
             else:
-                res = explore_parallel(part, budget, stop_on_violation=True)
+                res = explore_parallel(part, budget)
                 viol = res['violations']
             clauses = sorted({v['clause'] for v in viol})
             caught = any(c in expected for c in clauses) if expected else bool(clauses)
@@ -519,6 +541,7 @@ def run_property(mod, argv=None):
     if args.part:
         parts = [p for p in parts if p.name == args.part]
 
+    _KNOWN['pid'] = pid
     if args.canaries:
         res = run_canaries(mod, tier)
         bad = [r for r in res if not r['caught']]
@@ -542,6 +565,7 @@ def run_property(mod, argv=None):
         return EXIT_OK
 
     known = load_known(pid)
+    _KNOWN['pid'] = pid
     harness_errors = []
     all_new = []
     known_hits = {}
@@ -568,6 +592,7 @@ def run_property(mod, argv=None):
                 'clauses': part.clauses,
             }
             rep['_violations'] = res['violations']
+            rep['_known'] = res['known']
             for k, v in res['vars'].items():
                 vars_kind[k] = v
             if res['errors']:
@@ -602,7 +627,17 @@ def run_property(mod, argv=None):
             closed_all = False
 
         # triage violations of this part
+        cc = {}
+        for v in rep.get('_violations', []):
+            cc[v['clause']] = cc.get(v['clause'], 0) + 1
+        if cc:
+            print('    violated clauses (recorded): %s' % cc)
+            rep['violated_clauses'] = cc
         seen = set()
+        kn_by_id = {e['id']: e for e in known}
+        for kid, k in rep.pop('_known', {}).items():
+            hit = known_hits.setdefault(kid, {'entry': kn_by_id[kid], 'count': 0, 'example': k['example'], 'part': part})
+            hit['count'] += k['count']
         for v in rep.pop('_violations', []):
             v['part'] = part.name
             k = vkey(v)
@@ -644,6 +679,7 @@ def run_property(mod, argv=None):
     wall = round(time.time() - t0, 2)
     for p in part_reports:
         p.pop('_violations', None)
+        p.pop('_known', None)
     n_data = sum(1 for k in vars_kind.values() if k == 'data')
     n_choice = sum(1 for k in vars_kind.values() if k == 'choice')
     evidence = {
